@@ -65,3 +65,113 @@ def rot_zyx():
 
 
 DRULES = {'x': {'sx': V('cx'), 'cx': -V('sx')}, 'y': {'sy': V('cy'), 'cy': -V('sy')}, 'z': {'sz': V('cz'), 'cz': -V('sz')}}
+
+
+# ------------------------------------------------------------------------------------------------------------------
+# formal derivative of an SMT-LIB real term produced from the *code* (back end B terms), by the textbook rules:
+#   (u+v)' = u'+v', (uv)' = u'v+uv', (u/v)' = (u'v-uv')/v^2, sin' = cos, cos' = -sin, tan' = 1/cos^2, exp' = exp,
+#   log' = 1/u, atan' = 1/(1+u^2), sqrt' = 1/(2 sqrt), pow(u, p)' = p pow(u, p)/u u' for an exponent p free of the variable.
+# Terms with ite are rejected.  The rules are part of the trusted base of the properties that use them (C03).
+# ------------------------------------------------------------------------------------------------------------------
+def sparse(txt):
+    toks = txt.replace('(', ' ( ').replace(')', ' ) ').split()
+    pos = [0]
+
+    def rd():
+        t = toks[pos[0]]; pos[0] += 1
+        if t != '(':
+            return t
+        lst = []
+        while toks[pos[0]] != ')':
+            lst.append(rd())
+        pos[0] += 1
+        return lst
+    r = rd()
+    assert pos[0] == len(toks), 'trailing tokens in term'
+    return r
+
+
+def sshow(t):
+    return t if isinstance(t, str) else '(' + ' '.join(sshow(x) for x in t) + ')'
+
+
+def _occurs(t, var):
+    return t == var if isinstance(t, str) else any(_occurs(x, var) for x in t)
+
+
+def _zero(t): return t in ('0.0', '0')
+
+
+def _sadd(a, b):
+    if _zero(a): return b
+    if _zero(b): return a
+    return ['+', a, b]
+
+
+def _ssub(a, b):
+    if _zero(b): return a
+    if _zero(a): return ['-', b]
+    return ['-', a, b]
+
+
+def _smul(a, b):
+    if _zero(a) or _zero(b): return '0.0'
+    if a == '1.0': return b
+    if b == '1.0': return a
+    return ['*', a, b]
+
+
+def _sdiv(a, b):
+    if _zero(a): return '0.0'
+    return ['/', a, b]
+
+
+def _sd(t, var):
+    if isinstance(t, str):
+        return '1.0' if t == var else '0.0'
+    if not _occurs(t, var):
+        return '0.0'
+    op, a = t[0], t[1:]
+    if op == '+':
+        r = '0.0'
+        for x in a:
+            r = _sadd(r, _sd(x, var))
+        return r
+    if op == '-':
+        if len(a) == 1:
+            d = _sd(a[0], var)
+            return '0.0' if _zero(d) else ['-', d]
+        r = _sd(a[0], var)
+        for x in a[1:]:
+            r = _ssub(r, _sd(x, var))
+        return r
+    if op == '*':
+        if len(a) > 2:
+            return _sd(['*', a[0], ['*'] + a[1:]], var)
+        u, v = a
+        return _sadd(_smul(_sd(u, var), v), _smul(u, _sd(v, var)))
+    if op == '/':
+        u, v = a
+        du, dv = _sd(u, var), _sd(v, var)
+        if _zero(dv):
+            return _sdiv(du, v)
+        return _sdiv(_ssub(_smul(du, v), _smul(u, dv)), ['*', v, v])
+    u = a[0]
+    du = _sd(u, var)
+    if op == 'f_sin': return _smul(['f_cos', u], du)
+    if op == 'f_cos': return _smul(['-', ['f_sin', u]], du)
+    if op == 'f_exp': return _smul(t, du)
+    if op == 'f_log': return _sdiv(du, u)
+    if op == 'f_tan': return _sdiv(du, ['*', ['f_cos', u], ['f_cos', u]])
+    if op == 'f_atan': return _sdiv(du, ['+', '1.0', ['*', u, u]])
+    if op == 'f_sqrt': return _sdiv(du, ['*', '2.0', t])
+    if op == 'f_pow':
+        if _occurs(a[1], var):
+            raise ValueError('pow with a variable exponent')
+        return _smul(_smul(a[1], _sdiv(t, u)), du)
+    raise ValueError('no differentiation rule for %s' % op)
+
+
+def sdiff(term, var):
+    """d term / d var as an SMT-LIB term (strings in, string out)"""
+    return sshow(_sd(sparse(term), var))
